@@ -118,6 +118,24 @@ def eval_tree(tree, U, V, w):
     return out
 
 
+def eval_tree_abs(tree, U, V, w):
+    """magnitude of what eval_tree sums: every product of the contraction taken in absolute value before adding
+    (bounds rounding even where the tree cancels identically, e.g. S_01 - S_10 of a symmetric tensor)"""
+    out = 0
+    U, V = as_tuple(U), as_tuple(V)
+    for t in tree:
+        fu = U[t['ucomp'] % len(U)]
+        fv = V[t['vcomp'] % len(V)]
+        au, av = avail(fu), avail(fv)
+        A = comps(getattr(fu, au[t['du'] % len(au)]))
+        B = comps(getattr(fv, av[t['dv'] % len(av)]))
+        s = 0
+        for i, j, c in t['pairs']:
+            s = s + np.abs(c * A[i % len(A)] * B[j % len(B)])
+        out = out + np.abs(eval_coef(t['coef'], w)) * s
+    return out
+
+
 def describe(tree, U, V):
     """human-readable version of a tree for failure details / samples"""
     out = []
